@@ -421,7 +421,55 @@ def rule_hex_pushes_stay_data(ctx: Ctx, rep: Report) -> None:
     rep.floor(rule, 2)
 
 
+REDUCERS = {"bytes_from_prv_key_int": "reduces its scalar mod n without refusing 0 or a value >= n"}
+
+
+def rule_scalar_validated_before_reduction(ctx: Ctx, rep: Report) -> None:
+    """C12.scalar_validated_before_reduction: `bytes_from_prv_key_int` multiplies G by
+    its scalar *reduced mod n* -- it is the inner layer, handed a q some
+    validator (`int_from_prv_key`, `prv_keyinfo_from_prv_key`,
+    `scalar_from_prv_key`, a key object's own field) has already held to
+    1..n-1. A caller's loose-typed key parameter (Key, PrvKey, Integer, Octets)
+    is never handed to it as it came: n + 5 would be answered as the key 5, and
+    the output key an internal key of n + 5 commits to is somebody else's."""
+    from rules.sigcommon import LOOSE_ALIASES, _ann_text, _rebound_before
+    rule = "C12.scalar_validated_before_reduction"
+    n = 0
+    for q, fi in sorted(ctx.prog.functions.items()):
+        if not q.startswith(("btclib.to_pub_key.", "btclib.script.taproot.", "btclib.to_prv_key.", "btclib.key.")):
+            continue
+        a = fi.node.args
+        loose = {p_.arg: _ann_text(p_.annotation) for p_ in a.posonlyargs + a.args + a.kwonlyargs if p_.annotation is not None and _ann_text(p_.annotation).split("|")[0] in set(LOOSE_ALIASES) | {"Key"}}
+        for c in own_nodes(fi.node):
+            if isinstance(c, ast.Call) and call_name(c) in REDUCERS and c.args:
+                n += 1
+                x = c.args[0]
+                raw = isinstance(x, ast.Name) and x.id in loose and not _rebound_before(fi, x.id, c)
+                rep.ob(rule, f"{q}->{call_name(c)}", not raw, fi.where(c), "the scalar was validated (or is a validated object's field)" if not raw else
+                       f"`{norm(c)[:60]}` hands `{x.id}: {loose[x.id]}` to a function that {REDUCERS[call_name(c)]}: an out-of-range key is answered as another key")
+    rep.floor(rule, 2)
+
+
+def rule_pushes_are_script_pushes(ctx: Ctx, rep: Report) -> None:
+    """C12.pushes_are_script_pushes: a data element of a leaf script is written as a
+    *script push* (a length byte below 76, then OP_PUSHDATA1/2/4), not as a
+    compact-size string: the two agree up to 75 bytes and nowhere after. The
+    tapscript serializer writes its bytes commands with the script push helper;
+    `var_bytes.serialize` appears nowhere in it."""
+    rule = "C12.pushes_are_script_pushes"
+    fi = ctx.func(f"{T}.serialize")
+    vb = [c for c in own_nodes(fi.node) if isinstance(c, ast.Call) and str(norm(c.func)) in ("var_bytes.serialize", "var_int.serialize")]
+    rep.ob(rule, "serialize:no_compact_size", not vb, fi.where(vb[0] if vb else None), "no compact-size writer in the script serializer" if not vb else
+           f"`{norm(vb[0])[:50]}` writes a push with a compact-size length: from 76 bytes on that is not a push but other op codes (80 bytes begin with OP_SUCCESS80)")
+    pushes = [c for c in own_nodes(fi.node) if isinstance(c, ast.Call) and call_name(c) == "_serialize_bytes_command"]
+    rep.ob(rule, "serialize:push_helper", bool(pushes), fi.where(), "bytes commands go through the script push helper")
+    rep.floor(rule, 2)
+
+
 RULES = [
+    ("C12.scalar_validated_before_reduction", rule_scalar_validated_before_reduction),
+    ("C12.pushes_are_script_pushes", rule_pushes_are_script_pushes),
+
     ("C12.hex_pushes_stay_data", rule_hex_pushes_stay_data),
 
     ("C12.leaf_version_masked", rule_leaf_version_masked),
